@@ -3,7 +3,9 @@ package drv
 import (
 	"context"
 	"fmt"
+	"io"
 	"net/http"
+	"net/url"
 	"reflect"
 	"sort"
 	"strings"
@@ -155,6 +157,21 @@ func modeSec(c *Ctx) {
 			}
 		}
 	}
+	// a query apiKey is the query parameter, not a same-named field of a form
+	// body: valid token only in the body (must be refused), valid token in the
+	// query with junk in the body (must be accepted)
+	for i, k := range keys {
+		if sk := schemes[k]; sk.Type == "apiKey" && sk.In == "query" {
+			for _, st := range []string{"form:body-only", "form:query-valid-body-junk"} {
+				a := make([]string, len(keys))
+				for j := range a {
+					a[j] = "absent"
+				}
+				a[i] = st
+				assigns = append(assigns, a)
+			}
+		}
+	}
 	nilOptions := append([]string{""}, keys...)
 	for _, op := range c.Ops {
 		if op.Spec == nil {
@@ -179,6 +196,24 @@ func modeSec(c *Ctx) {
 						tok = "good-" + k
 					case as[i] == "invalid":
 						tok = "bad"
+					case strings.HasPrefix(as[i], "form:"):
+						if op.Method != "POST" && op.Method != "PUT" && op.Method != "PATCH" {
+							continue
+						}
+						form := url.Values{}
+						if as[i] == "form:body-only" {
+							form.Set(s.Name, "good-"+k)
+						} else {
+							form.Set(s.Name, "junk")
+							q.Set(s.Name, "good-"+k)
+							cred["qry:"+s.Name] = "good-" + k
+						}
+						body := form.Encode()
+						r.Body = io.NopCloser(strings.NewReader(body))
+						r.ContentLength = int64(len(body))
+						r.Header.Set("Content-Type", "application/x-www-form-urlencoded")
+						c.Stat("form_body_credential_requests", 1)
+						continue
 					case strings.HasPrefix(as[i], "mal:"):
 						hasMalformed = true
 						raw := strings.ReplaceAll(strings.TrimPrefix(as[i], "mal:"), "%s", "good-"+k)
